@@ -22,7 +22,7 @@ Definition c_fresh (c : cache) (mbf : bool) (e : csent) : bool := negb mbf || (c
 
 (* time passes / capacity is set *)
 Definition c_adv (c : cache) (d : N) : cache := mkcache (c_now c + Z.of_N d) (c_list c) (c_cap c).
-Definition c_setcap (c : cache) (k : N) : cache := mkcache (c_now c) (c_list c) k.
+Definition c_setcap (c : cache) (k : Z) : cache := mkcache (c_now c) (c_list c) (cap_of_int k).
 
 (* insertion: a refresh moves the entry to the most-recent end; a new name is appended and then the least recently
    used entries are dropped until at most the CURRENT capacity remain *)
@@ -30,7 +30,7 @@ Definition c_insert (c : cache) (n : name) (w : N) (fresh : option N) : cache :=
   let e := mkcs n w (match fresh with Some f => c_now c + Z.of_N f | None => c_now c end) in
   match c_lookup (c_list c) n with
   | Some _ => mkcache (c_now c) (c_remove (c_list c) n ++ [e]) (c_cap c)
-  | None => let l := c_list c ++ [e] in mkcache (c_now c) (skipn (length l - N.to_nat (c_cap c)) l) (c_cap c)
+  | None => let l := c_list c ++ [e] in mkcache (c_now c) (skipn (N.to_nat (N.of_nat (length l) - c_cap c)) l) (c_cap c)
   end.
 
 (* exact-name lookup: the entry, if cached and (when MustBeFresh) not yet stale; a hit makes it most recent *)
